@@ -556,8 +556,13 @@ func (e *Env) frameInit(fc *FuncContract, key string, sig *types.Signature, actu
 		n := heapMap(pl.lf.Owner, pl.lf.Field)
 		e.frLeaves[n] = append(e.frLeaves[n], pl.id.Subst(e.entryOld))
 	}
-	for _, rf := range ms.refs {
+	for i, rf := range ms.refs {
 		e.frRefs = append(e.frRefs, rf.Subst(e.entryOld))
+		var c *Term
+		if ms.conds[i] != nil {
+			c = ms.conds[i].Subst(e.entryOld)
+		}
+		e.frRefConds = append(e.frRefConds, c)
 	}
 	e.frOn = true
 	e.declare("$fok", SBool)
@@ -635,13 +640,23 @@ func (e *Env) noteObjWrite(id *Term, lf *leaf) {
 }
 
 // noteMemWrite: the byte array ref is written.
-func (e *Env) noteMemWrite(ref *Term) {
+func (e *Env) noteMemWrite(ref *Term) { e.noteMemWriteIf(ref, nil) }
+
+// noteMemWriteIf: the byte array ref is written if cond (nil: always) holds.
+func (e *Env) noteMemWriteIf(ref, cond *Term) {
 	if !e.frOn {
 		return
 	}
 	var alts []*Term
-	for _, x := range e.frRefs {
-		alts = append(alts, Eq(ref, x))
+	if cond != nil {
+		alts = append(alts, Not(cond))
+	}
+	for i, x := range e.frRefs {
+		if c := e.frRefConds[i]; c != nil {
+			alts = append(alts, And(Eq(ref, x), c))
+		} else {
+			alts = append(alts, Eq(ref, x))
+		}
 	}
 	alts = append(alts, Eq(ref, IntLit(0))) // nothing lives at the nil ref: a callee given a nil slice writes nothing
 	alts = append(alts, Ge(ref, e.nextRef().Subst(e.entryOld)))
